@@ -722,6 +722,51 @@ static void idl_loss_case(uint64_t idx, void *arg)
         if (idx == 3 && shard == 0) mc_sample("idl-loss: opt=RI+CI, 5 user packets sent 1,2,3,2,1 times, each of the 9 transmissions ok/dropped/CRC damaged/Hamming damaged, <= %d faults, foreign packets in between", idl_loss_bound);
 }
 
+/* ---- phase idl-dropout: long reception gaps -------------------------------- */
+
+/* Two packets, a dropout of g user packets (nothing of the channel is received, the sender's continuity index goes
+ * on), three more packets.  Every received packet is intact, so every one must be delivered with its own bytes; the
+ * first one after the dropout carries VBI_IDL_DATA_LOST whenever the continuity index shows the gap (g not a
+ * multiple of 256), the others never.  g sweeps the values around the wrap of the 8 bit index: 255 lost packets make
+ * the next index EQUAL to the last delivered one, 256 hide the gap completely. */
+static const int DROPOUTS[] = { 1, 2, 3, 15, 16, 17, 127, 128, 129, 253, 254, 255, 256, 257, 258, 509, 510, 511, 512, 513, 767, 768 };
+#define NDROPOUTS ((int)(sizeof DROPOUTS / sizeof *DROPOUTS))
+static void idl_dropout_case(uint64_t idx, void *arg)
+{
+        static const unsigned ci0s[4] = { 0x00, 0x20, 0xFE, 0xFF };
+        struct icfg c; memset(&c, 0, sizeof c);
+        c.opt = idx & 7; c.spalen = 2; c.spa = 0xA5; c.chan = 5;
+        unsigned ci0 = ci0s[(idx >> 3) & 3];
+        uint64_t ev = 0;
+        for (int gi = 0; gi < NDROPOUTS; gi++) {
+                int g = DROPOUTS[gi];
+                struct irec rec; memset(&rec, 0, sizeof rec);
+                char desc[160]; snprintf(desc, sizeof desc, "opt=%s first CI %02x: user packets 0,1 received, %d packets lost, the next 3 received", opt_name(c.opt), ci0, g);
+                mc_case("idl long dropout", "%s", desc);
+                viol_reset();
+                vbi_idl_demux *dx = vbi_idl_a_demux_new(c.chan, c.spa, idl_cb, &rec);
+                if (!dx) harness_error("vbi_idl_a_demux_new");
+                for (int k = 0; k < 5 && !g_bad; k++) {
+                        int logical = k < 2 ? k : k + g;
+                        struct itx x; itx_plain(&x, &c, logical & 63, 0, 0, (ci0 + logical) & 0xFF, 36);
+                        int before = rec.n;
+                        vbi_bool ret = vbi_idl_demux_feed(dx, X42(x.p));
+                        ev++;
+                        if (!ret) VIOL("idl feed() FALSE for an intact packet", "long dropout: %s; packet %d", desc, k);
+                        if (rec.n != before + 1) { VIOL("idl intact packet not delivered [long dropout]", "%s; received packet %d (user packet %d, CI %02x): %d deliveries", desc, k, logical, (ci0 + logical) & 0xFF, rec.n - before); break; }
+                        if (rec.d[before].nb != (unsigned) x.nexp || memcmp(rec.d[before].b, x.exp, x.nexp)) { VIOL("idl delivered bytes differ from the sent user data [long dropout]", "%s; received packet %d", desc, k); break; }
+                        int flagged = !!(rec.d[before].flags & VBI_IDL_DATA_LOST);
+                        if (k == 2 && (g % 256) && !flagged) VIOL("idl continuity gap not flagged with VBI_IDL_DATA_LOST", "long dropout: %s; flags=%#x", desc, rec.d[before].flags);
+                        if (k != 2 && k != 0 && flagged) VIOL("idl VBI_IDL_DATA_LOST without a continuity gap [no repeated transmission in the stream]", "long dropout: %s; received packet %d flags=%#x", desc, k, rec.d[before].flags);
+                }
+                vbi_idl_demux_delete(dx);
+                viol_emit();
+                mc_distinct(0x15500000u + idx * 64 + gi);
+        }
+        mc_count("evaluations", ev);
+        if (idx == 9) mc_sample("idl-dropout: opt=%s, first CI %02x, dropouts of %d..%d user packets (22 lengths around the multiples of 256)", opt_name(c.opt), ci0, DROPOUTS[0], DROPOUTS[NDROPOUTS - 1]);
+}
+
 /* ---- phase idl-init ------------------------------------------------------- */
 
 static void idl_init_case(uint64_t idx, void *arg)
@@ -1471,6 +1516,7 @@ int main(int argc, char **argv)
         mc_pool("idl-filter", 56, idl_filter_case, NULL, 60);
         mc_pool("idl-crc", 24, idl_crc_case, NULL, 60);
         mc_pool("idl-loss", 48 * 4, idl_loss_case, NULL, 300);
+        mc_pool("idl-dropout", 32, idl_dropout_case, NULL, 30);
         mc_pool("idl-init", 32, idl_init_case, NULL, 30);
         mc_pool("idl-ci-run", 16, idl_ci_run_case, NULL, 30);
         mc_pool("pfc-size", (uint64_t) ((n_sizes + 31) / 32) * 13 * 3 * 3, pfc_size_case, NULL, 120);
